@@ -1798,6 +1798,19 @@ def c07(ctx):
         ctx.rng.shuffle(seq)
         ops = [('push', 0, 0, v) for v in seq] + [('merge', 1, [0]), ('push', 1, 0, hot), ('push', 1, 0, warm), ('push', 1, 0, cold[0]), ('read', 1)]
         cases.append(('cdc', ops)); res.nontrivial.add('hotlast%d' % it)
+    # the tag table filled to its last entry: first bytes cover all but tag 255 (one source), all but tags 0 and 255
+    # (two sources), and a dictionary of more strings than free tags whose lowest-ranked member takes the last tag
+    hot = [254, 1, 2, 3, 4, 5]; second = [9, 8, 7, 6, 5]
+    ops = [('push', 0, 0, [b]) for b in range(255)] + [('push', 0, 0, hot)] * 40 + [('merge', 1, [0]), ('push', 1, 0, hot), ('push', 1, 0, [3]),
+           ('push', 1, 0, hot), ('read', 1)]
+    cases.append(('cdc', ops)); res.nontrivial.add('tag255-only')
+    ops = [('push', 0, 0, [b]) for b in range(1, 128)] + [('push', 0, 0, hot)] * 40 + [('push', 1, 0, [b]) for b in range(128, 255)] + \
+          [('push', 1, 0, second)] * 20 + [('merge', 2, [0, 1]), ('push', 2, 0, hot), ('push', 2, 0, second), ('push', 2, 0, [77]), ('read', 2)]
+    cases.append(('cdc', ops)); res.nontrivial.add('tag0-and-255')
+    cold = [[99] + list(('%03d' % i).encode()) for i in range(300)]
+    ops = [('push', 0, 0, v) for v in cold] + [('push', 0, 0, v) for v in cold[:260]] + [('merge', 1, [0])] + \
+          [('push', 1, 0, cold[i]) for i in (0, 253, 254, 255, 259, 299)] + [('read', 1)]
+    cases.append(('cdc', ops)); res.nontrivial.add('last-tag-by-rank')
     def clause_for(e):
         def clause(t, op, g, ref, sc):
             k = op[0]
